@@ -40,6 +40,7 @@ type event struct {
 	RemPort int   `json:"remPort,omitempty"` // out: explicit destination port (0 = the remote socket's), for unbound ports
 	Target string `json:"target,omitempty"` // in: "map:<n>" n-th learned external address (mod), "fresh" never-allocated port, "unpaired" IP
 	IdleNs int64  `json:"idleNs,omitempty"`
+	Form   int    `json:"form,omitempty"` // representation of the destination IP handed to WriteTo: 0 as stored, 1 four-byte, 2 sixteen-byte
 }
 
 type scenario struct {
@@ -81,13 +82,13 @@ func gen(r *harn.Rng, tier string) interface{} {
 		x := r.Intn(100)
 		switch {
 		case x < 45:
-			e := event{K: "out", Int: r.Intn(sc.Internal), Rem: r.Intn(sc.Remotes)}
+			e := event{K: "out", Int: r.Intn(sc.Internal), Rem: r.Intn(sc.Remotes), Form: r.Pick(0, 0, 1, 2)}
 			if r.Bool(0.1) {
 				e.RemPort = 9999 // unbound port on the remote host
 			}
 			sc.Events = append(sc.Events, e)
 		case x < 80:
-			e := event{K: "in", Rem: r.Intn(sc.Remotes)}
+			e := event{K: "in", Rem: r.Intn(sc.Remotes), Form: r.Pick(0, 0, 1, 2)}
 			switch r.Intn(10) {
 			case 0:
 				e.Target = "fresh"
@@ -160,6 +161,21 @@ func quietLF() *logging.DefaultLoggerFactory {
 	lf := logging.NewDefaultLoggerFactory()
 	lf.DefaultLogLevel = logging.LogLevelDisabled
 	return lf
+}
+
+// ipForm returns the same IPv4 address in another in-memory representation.
+func ipForm(ip net.IP, form int) net.IP {
+	switch form {
+	case 1:
+		if v := ip.To4(); v != nil {
+			return v
+		}
+	case 2:
+		if v := ip.To16(); v != nil {
+			return v
+		}
+	}
+	return ip
 }
 
 func part(kind int, a *net.UDPAddr) string {
@@ -464,6 +480,7 @@ func run(env *simrt.Env, sci interface{}) {
 			if e.RemPort != 0 {
 				dst.Port = e.RemPort
 			}
+			dst.IP = ipForm(dst.IP, e.Form)
 			pl, tag := mkPayload()
 			u0 := env.Now()
 			if _, err := is.conn.WriteTo(append([]byte(nil), pl...), dst); err != nil {
@@ -636,6 +653,9 @@ func run(env *simrt.Env, sci interface{}) {
 				var k int
 				fmt.Sscanf(e.Target, "map:%d", &k)
 				dst, _ = net.ResolveUDPAddr("udp", learned[k%len(learned)])
+			}
+			if dst != nil {
+				dst = &net.UDPAddr{IP: ipForm(dst.IP, e.Form), Port: dst.Port}
 			}
 			pl, tag := mkPayload()
 			u0 := env.Now()
